@@ -406,3 +406,49 @@ PROPS["C07"] = {
     "rule": VTBB_RULE + "; rt legs: every schedule within the deviation bound on the real scheduler",
     "legs": _c07(),
 }
+
+# ------------------------------------------------------------------------------------------------ C14 / C15 (flow graph)
+def _c14():
+    L = [leg("vtbb-graphs", "c14_flow", (4, 6), {}, flags=(), what="672 graphs: chains with 4 buffer policies x concurrency limits, buffering senders -> rejecting nodes, fan-out/fan-in, limiter feedback cycle, "
+             "continue_node, multifunction_node, input_node, async_node with a foreign completion, exception / cancel at every body invocation", weight=3.0)]
+    for k, b, what in [("ext2", (1, 2), "two external threads + main try_put into one serial queueing function_node"), ("ext2rej", (1, 2), "same, rejecting node: a rejected put is reported, an accepted one processed once"),
+                       ("pull", (1, 2), "queue_node -> rejecting serial node, puts from two threads: push/pull edge switching"), ("pull2", (1, 2), "queue_node -> two rejecting serial nodes"),
+                       ("bufsplit", (1, 2), "buffer_node -> two rejecting nodes: each message to exactly one"), ("async", (2, 3), "async_node completed by a foreign thread: wait_for_all waits for release_wait")]:
+        L.append(leg("rt-" + k, "c14_rt", b, {"kind": k}, what="real scheduler: " + what, weight=2.0))
+    L.append(leg("rt-pull-asleep", "c14_rt", (1, 2), {"kind": "pull", "asleep": 1}, what="real scheduler: pull with the worker asleep at the start", weight=2.0))
+    return L
+PROPS["C14"] = {
+    "explanation": "The real flow-graph templates. (1) On the abstract scheduler vtbb: 672 small graphs (chains with queueing / rejecting / lightweight policies and concurrency limits 1, 2, unlimited; "
+                   "buffer / queue / priority_queue / sequencer senders in front of rejecting nodes; broadcast, function and buffer fan-out with fan-in; queue -> limiter -> node -> decrementer cycle; "
+                   "continue_node with two predecessors; multifunction_node ports; input_node in front of rejecting / queueing nodes; async_node whose gateway is completed by a foreign activity; "
+                   "a body that throws or calls cancel at the i-th invocation) x message counts x virtual workers; every node body contains a point at which another virtual worker may run a whole "
+                   "graph task, external try_puts are interleaved with task steps, and which worker takes which task is an explorer choice. (2) On the real scheduler with one real worker: external "
+                   "threads call try_put concurrently with the graph's tasks (aggregator batches, push/pull edge switching, forwarder vs try_put for the last concurrency slot, async gateway). "
+                   "Oracle: per node and message id exactly-once ledger (accepted = try_put returned true), rejected puts reported and never processed, live bodies <= concurrency limit, at the "
+                   "return of wait_for_all no body live / no task left or leaked / every reserve_wait released, no body (task) starts after cancellation, wait_for_all rethrows the body's exception. "
+                   "Bodies of lightweight nodes run inside the sender's task by design, so the no-start-after-cancel clause is checked for task-based nodes only.",
+    "rule": VTBB_RULE + "; rt legs: every schedule within the deviation bound on the real scheduler",
+    "legs": _c14(),
+}
+def _c15():
+    L = [leg("vtbb-nodes", "c15_nodes", (3, 4), {"depth": 6}, flags=(), what="all legal operation sequences of length 6 over {put, try_get, try_reserve, try_release, try_consume} on buffer/queue/priority_queue/sequencer "
+             "nodes; sequencer arrival permutations; join_node queueing/key_matching/reserving with every arrival interleaving; limiter put/decrement programs with a receiver that rejects by choice; "
+             "overwrite/write_once op sequences; split/indexer/broadcast routing", weight=3.0),
+         leg("vtbb-seq8", "c15_nodes", (1, 1), {"only": "seq", "depth": 8}, flags=(), what="all operation sequences of length 8 (ring wrap and growth of the item buffer)", tiers=("quick",)),
+         leg("vtbb-seq10", "c15_nodes", (1, 1), {"only": "seq", "depth": 10}, flags=(), what="all operation sequences of length 10", tiers=("thorough",), weight=3.0)]
+    for k, b, what in [("limiter", (2, 3), "queue -> limiter(1) -> node -> decrementer, three messages"), ("limiter_ext", (1, 2), "same with a second putting thread"),
+                       ("joinq", (1, 2), "queueing join_node, the two ports fed by two threads"), ("joink", (1, 2), "key_matching join_node, keys arrive in opposite orders"),
+                       ("joinr", (1, 2), "reserving join_node behind two queue_nodes"), ("seq", (1, 2), "sequencer_node fed out of order by two threads")]:
+        L.append(leg("rt-" + k, "c14_rt", b, {"kind": k}, what="real scheduler: " + what, weight=2.0))
+    return L
+PROPS["C15"] = {
+    "explanation": "(1) Sequential exhaustive + task-level schedules on vtbb: buffer_node, queue_node, priority_queue_node and sequencer_node are driven by every legal sequence of put / try_get / try_reserve / "
+                   "try_release / try_consume up to the stated length against a reference model (nothing lost or handed out twice, FIFO, highest priority first, sequence order with duplicates and stale tags "
+                   "rejected, a reserved item is never handed to another consumer), forwarder tasks running at explorer-chosen moments; sequencer_node with every arrival permutation; join_node with every "
+                   "interleaving of the per-port arrivals (queueing: i-th tuple = i-th message of every port; key_matching: equal keys, each accepted message used once, min(count) tuples per key, rejected "
+                   "duplicates leave the pending message intact; reserving: inputs consumed only for complete tuples, the rest stays queued) and a successor that rejects; limiter_node with all put/decrement "
+                   "programs and a receiver that rejects by choice (forwarded - decremented <= threshold at every forward, nothing lost); overwrite_node / write_once_node with successors added before, between "
+                   "and after the puts; split_node, indexer_node, broadcast_node routing. (2) The same contracts on the real scheduler with the ports fed by two threads.",
+    "rule": VTBB_RULE + "; rt legs: every schedule within the deviation bound on the real scheduler",
+    "legs": _c15(),
+}
